@@ -272,20 +272,18 @@ mod verif_c19_codecs {
         w_selector_read(kani::any());
     }
 
-    #[kani::ensures(|r: &u16| ob("C19.SegmentSelector.set_rpl.frame", *r & !0b11 == raw & !0b11))]
-    #[kani::ensures(|r: &u16| ob("C19.SegmentSelector.set_rpl.value", *r & 0b11 == pl_num(rpl)))]
-    fn w_selector_set_rpl(raw: u16, rpl: PrivilegeLevel) -> u16 {
+    // Plain proof (PLAIN-1): as a contract this takes 20 s, as a plain proof 0.1 s; see C19_NOTES.md.
+    //@ obligation C19 C19.SegmentSelector.set_rpl.frame
+    //@ obligation C19 C19.SegmentSelector.set_rpl.value
+    #[kani::proof]
+    fn c19_selector_set_rpl() {
+        let raw: u16 = kani::any();
+        let rpl = any_pl();
         kani::cover!(true, "c19_selector_set_rpl: reachable");
         let mut s = SegmentSelector(raw);
         s.set_rpl(rpl);
-        s.0
-    }
-
-    //@ obligation C19 C19.SegmentSelector.set_rpl.frame
-    //@ obligation C19 C19.SegmentSelector.set_rpl.value
-    #[kani::proof_for_contract(w_selector_set_rpl)]
-    fn c19_selector_set_rpl() {
-        w_selector_set_rpl(kani::any(), any_pl());
+        assert!(s.0 & !0b11 == raw & !0b11, "C19.SegmentSelector.set_rpl.frame: bits 15:2 (TI, index) unchanged");
+        assert!(s.0 & 0b11 == pl_num(rpl), "C19.SegmentSelector.set_rpl.value: bits 1:0 hold the new RPL");
     }
 
     // ============================ PrivilegeLevel ===============================
@@ -465,52 +463,49 @@ mod verif_c19_codecs {
     }
 
     /// Readers, over ALL 2^64 raw values (also ones `from_bits` would reject): no panic, exact field.
-    #[kani::ensures(|r: &(BreakpointCondition, BreakpointSize)| ob("C19.Dr7Value.condition.reads_field",
-        cond_num(r.0) == (bits >> (16 + 4 * drn_num(n) as u64)) & 0b11))]
-    #[kani::ensures(|r: &(BreakpointCondition, BreakpointSize)| ob("C19.Dr7Value.size.reads_field",
-        size_num(r.1) == (bits >> (18 + 4 * drn_num(n) as u64)) & 0b11))]
-    fn w_dr7_read_fields(bits: u64, n: DebugAddressRegisterNumber) -> (BreakpointCondition, BreakpointSize) {
-        kani::cover!(true, "c19_dr7_read_fields: reachable");
-        let v = unsafe { Dr7Value::from_bits_unchecked(bits) };
-        (v.condition(n), v.size(n))
-    }
-
+    /// (PLAIN-1: 56 s as a contract, 0.3 s plain.)
     //@ obligation C19 C19.Dr7Value.condition.reads_field
     //@ obligation C19 C19.Dr7Value.size.reads_field
-    #[kani::proof_for_contract(w_dr7_read_fields)]
+    #[kani::proof]
     fn c19_dr7_read_fields() {
-        w_dr7_read_fields(kani::any(), any_drn());
+        let bits: u64 = kani::any();
+        let n = any_drn();
+        kani::cover!(true, "c19_dr7_read_fields: reachable");
+        let v = unsafe { Dr7Value::from_bits_unchecked(bits) };
+        let (c, s) = (v.condition(n), v.size(n));
+        assert!(cond_num(c) == (bits >> (16 + 4 * drn_num(n) as u64)) & 0b11,
+            "C19.Dr7Value.condition.reads_field: R/Wn is bits 17+4n:16+4n");
+        assert!(size_num(s) == (bits >> (18 + 4 * drn_num(n) as u64)) & 0b11,
+            "C19.Dr7Value.size.reads_field: LENn is bits 19+4n:18+4n");
     }
 
     /// Writer: exactly the two bits of R/Wn change (frame = every other bit of a symbolic prior value).
-    #[kani::ensures(|r: &u64| ob("C19.Dr7Value.set_condition.writes_field_only",
-        *r == (bits & !(0b11u64 << (16 + 4 * drn_num(n) as u64))) | (cond_num(c) << (16 + 4 * drn_num(n) as u64))))]
-    fn w_dr7_set_condition(bits: u64, n: DebugAddressRegisterNumber, c: BreakpointCondition) -> u64 {
+    /// (PLAIN-1: 28 s as a contract.)
+    //@ obligation C19 C19.Dr7Value.set_condition.writes_field_only
+    #[kani::proof]
+    fn c19_dr7_set_condition() {
+        let bits: u64 = kani::any();
+        let (n, c) = (any_drn(), any_cond());
         kani::cover!(true, "c19_dr7_set_condition: reachable");
         let mut v = unsafe { Dr7Value::from_bits_unchecked(bits) };
         v.set_condition(n, c);
-        v.bits()
+        let lsb = 16 + 4 * drn_num(n) as u64;
+        assert!(v.bits() == (bits & !(0b11u64 << lsb)) | (cond_num(c) << lsb),
+            "C19.Dr7Value.set_condition.writes_field_only: result is the prior value with bits 17+4n:16+4n replaced");
     }
 
-    //@ obligation C19 C19.Dr7Value.set_condition.writes_field_only
-    #[kani::proof_for_contract(w_dr7_set_condition)]
-    fn c19_dr7_set_condition() {
-        w_dr7_set_condition(kani::any(), any_drn(), any_cond());
-    }
-
-    #[kani::ensures(|r: &u64| ob("C19.Dr7Value.set_size.writes_field_only",
-        *r == (bits & !(0b11u64 << (18 + 4 * drn_num(n) as u64))) | (size_num(s) << (18 + 4 * drn_num(n) as u64))))]
-    fn w_dr7_set_size(bits: u64, n: DebugAddressRegisterNumber, s: BreakpointSize) -> u64 {
+    /// (PLAIN-1: 31 s as a contract.)
+    //@ obligation C19 C19.Dr7Value.set_size.writes_field_only
+    #[kani::proof]
+    fn c19_dr7_set_size() {
+        let bits: u64 = kani::any();
+        let (n, s) = (any_drn(), any_size());
         kani::cover!(true, "c19_dr7_set_size: reachable");
         let mut v = unsafe { Dr7Value::from_bits_unchecked(bits) };
         v.set_size(n, s);
-        v.bits()
-    }
-
-    //@ obligation C19 C19.Dr7Value.set_size.writes_field_only
-    #[kani::proof_for_contract(w_dr7_set_size)]
-    fn c19_dr7_set_size() {
-        w_dr7_set_size(kani::any(), any_drn(), any_size());
+        let lsb = 18 + 4 * drn_num(n) as u64;
+        assert!(v.bits() == (bits & !(0b11u64 << lsb)) | (size_num(s) << lsb),
+            "C19.Dr7Value.set_size.writes_field_only: result is the prior value with bits 19+4n:18+4n replaced");
     }
 
     /// Independence at API level: 4 registers x 4 conditions x 4 sizes x every prior value.
@@ -683,31 +678,26 @@ mod verif_c19_codecs {
         }
     }
 
-    #[kani::ensures(|r: &Option<(bool, DescriptorTable, u64, bool)>| ob("C19.SelectorErrorCode.new.accepts_iff_le_u16_max", r.is_some() == (value <= 0xFFFF)))]
-    #[kani::ensures(|r: &Option<(bool, DescriptorTable, u64, bool)>| ob("C19.SelectorErrorCode.external.reads_bit_0",
-        match r { Some(f) => f.0 == (value & 1 == 1), None => true }))]
-    #[kani::ensures(|r: &Option<(bool, DescriptorTable, u64, bool)>| ob("C19.SelectorErrorCode.descriptor_table.reads_bits_1_2",
-        match r { Some(f) => f.1 == table_of((value >> 1) & 0b11), None => true }))]
-    #[kani::ensures(|r: &Option<(bool, DescriptorTable, u64, bool)>| ob("C19.SelectorErrorCode.index.reads_bits_3_15",
-        match r { Some(f) => f.2 == (value >> 3) & 0x1FFF, None => true }))]
-    #[kani::ensures(|r: &Option<(bool, DescriptorTable, u64, bool)>| ob("C19.SelectorErrorCode.is_null.iff_zero",
-        match r { Some(f) => f.3 == (value == 0), None => true }))]
-    fn w_selector_error_code_new(value: u64) -> Option<(bool, DescriptorTable, u64, bool)> {
-        kani::cover!(true, "c19_selector_error_code_new: reachable");
-        match SelectorErrorCode::new(value) {
-            Some(e) => Some((e.external(), e.descriptor_table(), e.index(), e.is_null())),
-            None => None,
-        }
-    }
-
+    /// (PLAIN-1: 13 s as a contract.)
     //@ obligation C19 C19.SelectorErrorCode.new.accepts_iff_le_u16_max
     //@ obligation C19 C19.SelectorErrorCode.external.reads_bit_0
     //@ obligation C19 C19.SelectorErrorCode.descriptor_table.reads_bits_1_2
     //@ obligation C19 C19.SelectorErrorCode.index.reads_bits_3_15
     //@ obligation C19 C19.SelectorErrorCode.is_null.iff_zero
-    #[kani::proof_for_contract(w_selector_error_code_new)]
+    #[kani::proof]
     fn c19_selector_error_code_new() {
-        w_selector_error_code_new(kani::any());
+        let value: u64 = kani::any();
+        kani::cover!(true, "c19_selector_error_code_new: reachable");
+        let r = SelectorErrorCode::new(value);
+        assert!(r.is_some() == (value <= 0xFFFF),
+            "C19.SelectorErrorCode.new.accepts_iff_le_u16_max: Some iff no bit of 63:16 is set");
+        if let Some(e) = r {
+            assert!(e.external() == (value & 1 == 1), "C19.SelectorErrorCode.external.reads_bit_0: EXT");
+            assert!(e.descriptor_table() == table_of((value >> 1) & 0b11),
+                "C19.SelectorErrorCode.descriptor_table.reads_bits_1_2: IDT / TI");
+            assert!(e.index() == (value >> 3) & 0x1FFF, "C19.SelectorErrorCode.index.reads_bits_3_15: selector index");
+            assert!(e.is_null() == (value == 0), "C19.SelectorErrorCode.is_null.iff_zero: null iff the code is 0");
+        }
     }
 
     #[kani::ensures(|r: &(bool, DescriptorTable, u64, bool)| ob("C19.SelectorErrorCode.new_truncate.drops_bits_16_63",
